@@ -259,6 +259,8 @@ def run(ctx):
                         reqs.append({"op": "nodeRange", "doc": dj, "from": f, "to": t, "depth": got_br[0]})
                         metas.append(("nodeRange", replay, got_nr))
                         dd = got_br[0]
+                        if dd > len(anc_f):
+                            continue   # a depth the token picture does not have: reported as block_range above
                         lo = 0 if dd == 0 else anc_f[dd - 1] + 1
                         def whole_children_before(p):
                             n, q = 0, lo
